@@ -3,9 +3,11 @@ CORPUS = {"quick": 60, "thorough": 1000}
 PROP = dict(
     id="C02",
     module="FV.C02.Props",
-    coq_targets=["theories/C02/Check.vo", "theories/C02/Props.vo"],
+    coq_targets=["theories/C02/Check.vo", "theories/C02/Search.vo", "theories/C02/Props.vo"],
     theorems=["task_graph_safe_in_all_schedules", "bookkeeping_exact", "launch_guarantees"],
-    prelude="From Coq Require Import List NArith Bool.\nFrom FV.Base Require Import Harness.\nFrom FV.C02 Require Import Model Check.",
+    prelude="From Coq Require Import List NArith Bool.\nFrom FV.Base Require Import Harness.\nFrom FV.C02 Require Import Model Check Search.",
+    found_in_show=lambda shows: any("Launch" in x for x in shows),
+    correspondence_key="unordered-conflicting-access",
     harness_args=lambda tier, seed: ["--seed", str(seed), "--n", str(N[tier]), "--corpus", str(CORPUS[tier])],
     shard=6,
     rule="every source under resources/testdata that compiles (UFO, designspace, Glyphs 2/3) plus generated sources "
